@@ -18,11 +18,11 @@ ALTS = ["-", "77", "0"]
 CUSTOMS = ["-", "n", "v55", "r56", "Q57", "In", "Iv58"]
 # __conform__ shapes beyond a bound method: raising TypeError from its body (T), a plain function stored on the
 # instance (i...), the object being a class whose unbound __conform__ cannot be called with the interface alone (U)
-CONFS2 = ["T14", "in", "iv22", "ir15", "iT16", "iQ17", "U"]
+CONFS2 = ["T14", "in", "iv22", "ir15", "iT16", "iQ17", "U", "K"]
 
 
 def normcf(cf):
-    if cf == "U":
+    if cf in ("U", "K"):
         return "a"
     if cf[0] == "i":
         cf = cf[1:]
@@ -50,7 +50,7 @@ def gen_lines(rnd, tier):
                         L.append("call %s %s %s %s %s" % (cf, prov, hs, alt, cu))
     # registry hook installed: the result must equal registry.queryAdapter
     for cf in ["a", "E", "n"]:
-        for t in ["R0", "Rn", "Rv61"]:
+        for t in ["R0", "Rn", "Rv61", "W0", "Wn", "Wv62"]:
             for alt in ALTS:
                 for pre in ["", "n,"]:
                     L.append("call %s 0 %s%s %s -" % (cf, pre, t, alt))
@@ -67,9 +67,9 @@ def to_model(line):
     from the attribute access) is the absent case of the statement"""
     f = line.split()
     def tok(t):
-        if t in ("R0", "Rn", "N"):
+        if t in ("R0", "Rn", "N", "W0", "Wn"):
             return "n"
-        if t.startswith("Rv"):
+        if t.startswith("Rv") or t.startswith("Wv"):
             return "v" + t[2:]
         return "r" + t[1:] if t[0] == "Q" else t
     hs = ",".join(tok(t) for t in f[3].split(","))
@@ -106,8 +106,8 @@ def spec(line):
             return "self", log
         for k, t in enumerate([] if hs == "-" else hs.split(",")):
             log.append("h%d" % k)
-            if t.startswith("v") or t.startswith("Rv"):
-                return "val " + t.lstrip("Rv"), log
+            if t.startswith("v") or t.startswith("Rv") or t.startswith("Wv"):
+                return "val " + t.lstrip("RWv"), log
             if t[0] in "rQ":
                 return "exc " + t[1:], log
     if alt != "-":
